@@ -88,6 +88,10 @@ def const(c) -> Node:
     if isinstance(c, (int, np.integer)):
         return Node("c", (Fraction(int(c)),))
     if isinstance(c, (float, np.floating)):
+        if c != c:
+            # NaN placeholder (e.g. an energy that is deliberately not evaluated): an unconstrained
+            # variable, so that nothing that depends on it can be proved
+            return Node("v", ("__nan",))
         return Node("c", (float_to_fraction(float(c)),))
     raise TypeError(type(c))
 
